@@ -24,6 +24,14 @@ import (
 	xsha3 "golang.org/x/crypto/sha3"
 )
 
+// internal/sha3 has no build-tag (purego) or CPU-feature dependent code: the sponge units are
+// run under the default configuration only.
+func c15SkipNonDefault(t *testing.T) {
+	if c := os.Getenv("VERIF_CONFIG"); c != "" && c != "default" {
+		t.Skip("internal/sha3 is configuration independent; checked under the default configuration only")
+	}
+}
+
 // ---------------------------------------------------------------- refcheck
 
 // TestVerifC15_refcheck_keccak binds ref/keccak to its specifications: the
@@ -31,6 +39,7 @@ import (
 // TurboSHAKE / KangarooTwelve vector we have, and x/crypto/sha3 on every
 // length 0..2*rate+1. A failure here is a broken check, never an alarm.
 func TestVerifC15_refcheck_keccak(t *testing.T) {
+	c15SkipNonDefault(t)
 	r := verifmc.Start(t, "C15", "refcheck_keccak")
 	defer r.Finish()
 	r.Rule("reference model ref/keccak evaluated on authoritative vectors; non-trivial = each distinct (function, vector)")
@@ -160,26 +169,28 @@ type c15Expect struct {
 	msg    []byte
 	maxOut int
 	mu     sync.Mutex
-	cache  map[[2]int][]byte
+	cache  map[[2]int]*c15Entry
+}
+
+type c15Entry struct {
+	once sync.Once
+	out  []byte
 }
 
 func (c *c15Expect) get(absorbed int, ds byte, n int) []byte {
 	k := [2]int{absorbed, int(ds)}
 	c.mu.Lock()
-	o, ok := c.cache[k]
-	c.mu.Unlock()
-	if ok && len(o) >= n {
-		return o
+	e := c.cache[k]
+	if e == nil {
+		e = &c15Entry{}
+		c.cache[k] = e
 	}
-	want := c.maxOut
-	if n > want {
-		want = n
-	}
-	o = keccak.Sponge(c.v.rate, ds, c.v.rounds, c.msg[:absorbed], want)
-	c.mu.Lock()
-	c.cache[k] = o
 	c.mu.Unlock()
-	return o
+	e.once.Do(func() { e.out = keccak.Sponge(c.v.rate, ds, c.v.rounds, c.msg[:absorbed], c.maxOut) })
+	if len(e.out) < n {
+		panic("c15: reference output cache too short")
+	}
+	return e.out
 }
 
 // c15Obj adapts *State to the search engine.
@@ -282,8 +293,8 @@ func c15System(r *verifmc.Run, v c15Variant, msg []byte) *c15hist.System {
 		AbsKey:      func(a int) string { return fmt.Sprintf("%d.%v", a%rt, a >= rt) },
 		ProbeLen:    rt + 9,
 		Observe:     c15Observe,
-		DepthMerged: r.Pick(5, 7),
-		DepthTree:   r.Pick(3, 4),
+		DepthMerged: r.Pick(6, 8),
+		DepthTree:   r.Pick(4, 5),
 	}
 	if v.sumLen > 0 {
 		// fixed-output hashes: the specification defines exactly sumLen bytes, so output is
@@ -293,7 +304,7 @@ func c15System(r *verifmc.Run, v c15Variant, msg []byte) *c15hist.System {
 		sys.ProbeLen = v.sumLen
 		sys.ProbeSum = true
 	}
-	exp := &c15Expect{v: v, msg: msg, cache: map[[2]int][]byte{}}
+	exp := &c15Expect{v: v, msg: msg, cache: map[[2]int]*c15Entry{}}
 	exp.maxOut = sys.MaxOutput()
 	sys.Expect = exp.get
 	return sys
@@ -302,6 +313,7 @@ func c15System(r *verifmc.Run, v c15Variant, msg []byte) *c15hist.System {
 // TestVerifC15_sponge: explicit-state search over Write/Read/Sum/Clone/Swap/Reset/SwitchDS
 // histories of the real sha3.State for every variant.
 func TestVerifC15_sponge(t *testing.T) {
+	c15SkipNonDefault(t)
 	r := verifmc.Start(t, "C15", "sponge")
 	defer r.Finish()
 	if err := keccak.SelfTest(); err != nil {
@@ -335,11 +347,11 @@ func TestVerifC15_sponge(t *testing.T) {
 		}
 		return
 	}
+	var systems []*c15hist.System
 	for _, v := range vs {
-		sys := c15System(r, v, msg)
-		st, tr := sys.Search(r, msg)
-		r.Sample(map[string]interface{}{"variant": v.name, "states": st, "transitions": tr})
+		systems = append(systems, c15System(r, v, msg))
 	}
+	c15hist.SearchAll(r, systems, msg)
 	for _, c := range []string{"write:fastpath", "write:fastpath-then-buffer", "write:fill-exact", "write:fill-and-continue", "write:buffer-only",
 		"read:pad", "read:pad-in-last-byte", "read:pad-empty-buffer", "read:cross-block", "read:exact-drain",
 		"clone:squeezing", "clone:absorbing-buffered", "reset:after-read", "reset:buffered", "sum:absorbing", "switchds"} {
